@@ -23,6 +23,29 @@ def run(tier, wd):
     expected = sum(3 * 4 ** (2 * d + 2) for d in range(maxd + 1))
     if len(cases) != expected:
         raise core.Broken("TLC emitted %d flows, expected %d" % (len(cases), expected))
+    # deeper chains (depth 4..6): sampled outcome vectors, walked by TLC through the same machine
+    rnd0 = random.Random(core.seed() + 17)
+    vecs, seenv = [], set()
+    while len(vecs) < (600 if q else 30000):
+        d = rnd0.choice([4, 4, 5, 6])
+        ks = [rnd0.choice(["absent", "returns", "returns", "panics", "exits"]) for _ in range(2 * d + 3)]
+        if ks[d + 1] == "absent":
+            ks[d + 1] = "returns"
+        if (d, tuple(ks)) not in seenv:
+            seenv.add((d, tuple(ks)))
+            vecs.append({"depth": d, "kinds": ks})
+    sub = os.path.join(wd, "deep")
+    os.makedirs(sub, exist_ok=True)
+    with open(os.path.join(sub, "flowvectors.json"), "w") as f:
+        json.dump(vecs, f)
+    resd = core.run_tlc(sub, "Flow", cfg="FlowFile", timeout=3000)
+    core.tlc_must_finish(resd, "Flow on sampled deep vectors")
+    rep.add_tlc(resd)
+    deep = [json.loads(p) for p in sorted(set(resd.printed("FLOW")))]
+    if len(deep) != len(vecs):
+        raise core.Broken("TLC emitted %d deep flows, expected %d" % (len(deep), len(vecs)))
+    cases += deep
+    rep.cov["sampled_deep_vectors"] = len(deep)
     cases.sort(key=lambda c: (c["depth"], c["kinds"]))
     results = core.run_harness(binpath, "flow", [{"depth": c["depth"], "kinds": c["kinds"]} for c in cases], wd)
     nontriv = 0
@@ -76,7 +99,7 @@ def run(tier, wd):
     rep.cov["rule"] = ("every depth 0..%d x every vector of {absent, returns, panics, exits} over the Befores, the Action (never absent) and the Afters "
                        "(TLC explores all of them on the step machine of Flow.tla and checks the closed-form property on each); each vector is replayed on the "
                        "library with an exit stub that does not return, plus a sample in a child process with the real os.Exit; non-trivial = at least one hook "
-                       "raises and at least two hooks run" % maxd)
+                       "raises and at least two hooks run; plus sampled vectors for depth 4..6 walked by TLC through the same machine" % maxd)
     rep.assumptions += ["the harness's exit stub panics with a sentinel instead of returning (a stub that returns makes the After chain run twice: "
                         "TLC shows this with ExiterReturns=TRUE); the real os.Exit is used in the child-process sample",
                         "panic values are distinct pointers per hook, so 'unchanged' is pointer identity"]
